@@ -147,8 +147,8 @@ fn c19_footer__damaged_metadata_ok_or_err_never_panic__nat() {
 // metadata length.  `MetaDataLoader::load_from_file` on a small valid file whose length field is replaced by each of
 // 0, 1, real - 1, real, real + 1, (bytes before the tail), (bytes before the tail) + 1, file size, 2^20, 2^31, u32::MAX
 // (with and without leading data pages' worth of padding) returns Ok or Err, does not panic, and does not allocate from
-// the length field alone: the resident-memory high-water mark of the process grows by less than 256 MiB (a 4 GiB
-// zero-filled buffer for a 100-byte file would be visible).
+// the length field alone: for the announced lengths of 2^31 and 2^32 - 1 the resident-memory high-water mark of the
+// process grows by less than 768 MiB (a zero-filled buffer of the announced size would be visible).
 fn vm_hwm_kib() -> Option<u64> {
     let s = std::fs::read_to_string("/proc/self/status").ok()?;
     let l = s.lines().find(|l| l.starts_with("VmHWM:"))?;
@@ -239,9 +239,11 @@ fn c19_footer__lying_metadata_length_ok_or_err_bounded_allocation__nat() {
                 Ok(Ok(n)) => assert!(claimed == real && n == 1 || claimed != real, "valid file decoded wrongly"),
                 Ok(Err(e)) => assert!(claimed != real, "the valid file ({what}) was rejected: {}", e.lines().next().unwrap_or("")),
             }
-            if let (Some(a), Some(b)) = (hwm_before, vm_hwm_kib()) {
+            // only where the announced length is far above anything else this test binary allocates (other tests run
+            // in parallel threads of the same process)
+            if let (true, Some(a), Some(b)) = (claimed >= 1 << 30, hwm_before, vm_hwm_kib()) {
                 assert!(
-                    b.saturating_sub(a) < 256 * 1024,
+                    b.saturating_sub(a) < 768 * 1024,
                     "loading the Parquet footer of a {what} allocated {} MiB: the buffer is sized by the length field, not by the file",
                     (b - a) / 1024
                 );
